@@ -190,47 +190,54 @@ let run_case id kind cap ordered overhead ops =
     emit (Printf.sprintf "%s from=%s %s | %s" tag (string_of_n idx) (show_obs b.st) (show_aux b.st));
     new_removals b before;
     int_of_n idx in
-  (* a fresh follower that applied [pre] entries asks [src] for a streamed snapshot *)
+  (* a fresh follower that applied [pre] entries (fewer than src) *)
+  let new_follower src pre =
+    let c = mk "C" in
+    c.st <- rsm_open_ondisk c.st N0;
+    let src_idx = int_of_n src.st.r_index in
+    let pre = if src_idx = 0 then 0 else min pre (src_idx - 1) in
+    if pre > 0 then ignore (deliver_quiet c (entries_from 0 pre));
+    c in
+  (* replica c asks [src] for a streamed snapshot, installs it and gets the rest of the log.
+     decide: the request goes through NodeHost.sendMessage, which for an on-disk replica always
+     asks for a stream (never the recorded file); it needs a snapshot record on src *)
+  let stream_into src c ov decide =
+    if decide && src.ns.n_lr_snapshot = N0 then emit "M no-record"
+    (* node.canStream -> StateMachine.ReadyToStream *)
+    else if not (rsm_ready_to_stream cfg src.st) then emit "M refused"
+    else match rsm_prepare cfg SSStreaming src.st with
+      | Err _ | Ok OutOfDate -> raise Panic
+      | Ok (Prepared (m, st1)) ->
+        src.st <- st1;
+        let ua = src.uapplied in
+        let (img, st2) = rsm_finish_save cfg m src.st in
+        (* GetEmptyLRUSession is a table of rsm.LRUMaxSessionCount, the package variable the
+           harness sets to the capacity of the case (the model's constant is the source default) *)
+        let img = { img with i_sessions = (cap, []) } in
+        src.st <- st2;
+        emit (Printf.sprintf "M stream idx=%s term=%s od=%s" (string_of_n img.i_index) (string_of_n img.i_term) (string_of_n img.i_od));
+        if nle img.i_index c.st.r_last_index then emit "M nothing-to-install"
+        else begin
+          record c img ua;
+          c.ns <- nstep overhead c.ns (NReceive img.i_index);
+          let l = loads false c.st img in
+          let got =
+            match rsm_recover cfg false c.st img with
+            | Err _ -> raise Panic
+            | Ok RecOutOfDate -> N0
+            | Ok (Recovered st') -> c.st <- st'; after_recover c img ua l; img.i_index in
+          c.ns <- nstep overhead c.ns (NRecover (got <> N0, false));
+          let before = remove_log c in
+          emit (Printf.sprintf "M installed from=%s %s | %s" (string_of_n got) (show_obs c.st) (show_aux c.st));
+          new_removals c before;
+          c.lag <- false;
+          let g = int_of_n got in
+          let from = if g = 0 then int_of_n c.st.r_index + 1 else if g + 1 > ov then g + 1 - ov else 1 in
+          catch_up c from 0;
+          emit (c.name ^ " " ^ show_obs c.st)
+        end in
   let stream_to src ov pre =
-    if kind <> "disk" then emit "M n/a" else begin
-      let c = mk "C" in
-      c.st <- rsm_open_ondisk c.st N0;
-      let src_idx = int_of_n src.st.r_index in
-      let pre = if src_idx = 0 then 0 else min pre (src_idx - 1) in
-      if pre > 0 then ignore (deliver_quiet c (entries_from 0 pre));
-      (* node.canStream -> StateMachine.ReadyToStream *)
-      if not (rsm_ready_to_stream cfg src.st) then emit "M refused"
-      else match rsm_prepare cfg SSStreaming src.st with
-        | Err _ | Ok OutOfDate -> raise Panic
-        | Ok (Prepared (m, st1)) ->
-          src.st <- st1;
-          let ua = src.uapplied in
-          let (img, st2) = rsm_finish_save cfg m src.st in
-          (* GetEmptyLRUSession is a table of rsm.LRUMaxSessionCount, the package variable the
-             harness sets to the capacity of the case (the model's constant is the source default) *)
-          let img = { img with i_sessions = (cap, []) } in
-          src.st <- st2;
-          emit (Printf.sprintf "M stream idx=%s term=%s od=%s" (string_of_n img.i_index) (string_of_n img.i_term) (string_of_n img.i_od));
-          if nle img.i_index c.st.r_last_index then emit "M nothing-to-install"
-          else begin
-            record c img ua;
-            c.ns <- nstep overhead c.ns (NReceive img.i_index);
-            let l = loads false c.st img in
-            let got =
-              match rsm_recover cfg false c.st img with
-              | Err _ -> raise Panic
-              | Ok RecOutOfDate -> N0
-              | Ok (Recovered st') -> c.st <- st'; after_recover c img ua l; img.i_index in
-            c.ns <- nstep overhead c.ns (NRecover (got <> N0, false));
-            let before = remove_log c in
-            emit (Printf.sprintf "M installed from=%s %s | %s" (string_of_n got) (show_obs c.st) (show_aux c.st));
-            new_removals c before;
-            let g = int_of_n got in
-            let from = if g = 0 then int_of_n c.st.r_index + 1 else if g + 1 > ov then g + 1 - ov else 1 in
-            catch_up c from 0;
-            emit ("C " ^ show_obs c.st)
-          end
-    end in
+    if kind <> "disk" then emit "M n/a" else stream_into src (new_follower src pre) ov false in
   (* B installs the image A's LogReader holds (saved by an earlier save of A: an image is a value,
      nothing A applies later changes it), then gets the rest of the log *)
   let install_from tag head ov split =
@@ -330,6 +337,15 @@ let run_case id kind cap ordered overhead ops =
     | ["M"; ov; pre] ->
       flush ();
       stream_to b (small (n_of_string ov)) (small (n_of_string pre))
+    | ["V"; _; _] when kind <> "disk" -> emit "V n/a"
+    | ["V"; ov; pre] ->
+      let ov = small (n_of_string ov) and pre = small (n_of_string pre) in
+      flush ();
+      ignore (do_save a default_req []);
+      if nle a.st.r_index b.st.r_last_index then emit "V B-not-behind" else stream_into a b ov true;
+      b.lag <- false;
+      catch_up b (int_of_n b.st.r_index + 1) 0;
+      stream_into b (new_follower b pre) ov true
     | ["W"; _; _; _] when kind <> "disk" -> emit "W n/a"
     | ["W"; ov; keep; pre] ->
       let ov = small (n_of_string ov) and pre = small (n_of_string pre) in
